@@ -480,8 +480,94 @@ pub fn gen_checkpoints(seed: u64, tier: &str) -> Vec<String> {
     out
 }
 
+/// C20: event sequences with an injected interner failure before token positions
+fn emit_tree_faulty(t: &RefTree, out: &mut Vec<String>, rng: &mut Rng, fault_at: &dyn Fn(usize) -> usize, pos: &mut usize) {
+    match t {
+        RefTree::Tok(k, s) => {
+            // `fault_at(pos)` = how many consecutive injected failures precede this token
+            let n = fault_at(*pos);
+            *pos += 1;
+            for _ in 0..n {
+                out.push("failnext".into());
+                out.push(format!("tok {} {}", k, hex(s)));
+            }
+            if static_kind(*k) && rng.chance(1, 2) {
+                out.push(format!("stok {}", k));
+            } else {
+                out.push(format!("tok {} {}", k, hex(s)));
+            }
+        }
+        RefTree::Node(k, cs) => {
+            out.push(format!("start {}", k));
+            for c in cs {
+                emit_tree_faulty(c, out, rng, fault_at, pos);
+            }
+            out.push("finish_node".into());
+        }
+    }
+}
+
+fn count_tokens(t: &RefTree) -> usize {
+    match t {
+        RefTree::Tok(..) => 1,
+        RefTree::Node(_, cs) => cs.iter().map(count_tokens).sum(),
+    }
+}
+
+pub fn gen_faults(seed: u64, tier: &str) -> Vec<String> {
+    let mut rng = Rng::new(seed ^ 0xC20);
+    let mut out = vec![];
+    header(&mut out);
+    let mut case = 0usize;
+    let bes: Vec<&str> = backends().into_iter().filter(|b| !b.ends_with("ref")).collect();
+    let toks = vec![
+        RefTree::Tok(10, "a".into()),
+        RefTree::Tok(10, "".into()),
+        RefTree::Tok(12, "+".into()),
+        RefTree::Tok(11, "é".into()),
+    ];
+    let max = if tier == "thorough" { 5 } else { 4 };
+    let mut emit_case = |t: &RefTree, faults: &dyn Fn(usize) -> usize, out: &mut Vec<String>, rng: &mut Rng, case: &mut usize| {
+        out.push(format!("case {}", *case));
+        *case += 1;
+        out.push(format!("cache {}", bes[*case % bes.len()]));
+        out.push("builder c0".into());
+        let mut pos = 0;
+        emit_tree_faulty(t, out, rng, faults, &mut pos);
+        out.push("finish".into());
+        after_finish(out, 0);
+        // the cache must be as if the failed tokens had never been offered: rebuild without faults
+        out.push("builder c0".into());
+        let mut pos = 0;
+        emit_tree_faulty(t, out, rng, &|_| 0, &mut pos);
+        out.push("finish".into());
+        after_finish(out, 1);
+    };
+    for t in small_trees(max, &toks, &[0, 1]) {
+        let n = count_tokens(&t);
+        for p in 0..n {
+            emit_case(&t, &|i| if i == p { 1 } else { 0 }, &mut out, &mut rng, &mut case);
+        }
+        if n >= 2 {
+            emit_case(&t, &|_| 1, &mut out, &mut rng, &mut case);
+            emit_case(&t, &|i| if i == 0 { 2 } else { 0 }, &mut out, &mut rng, &mut case);
+        }
+    }
+    let n = if tier == "thorough" { 3000 } else { 300 };
+    for i in 0..n {
+        let mut pool = vec![];
+        let (d, w) = (1 + rng.below(5), 1 + rng.below(5));
+        let t = random_tree(&mut rng, d, w, &mut pool);
+        let r = rng.next();
+        let modulus = 2 + (i % 5) as u64;
+        emit_case(&t, &|p| if (r >> (p % 60)) % modulus == 0 { 1 + (p % 2) } else { 0 }, &mut out, &mut rng, &mut case);
+    }
+    out
+}
+
 pub fn generate(what: &str, seed: u64, tier: &str) -> Vec<String> {
     match what {
+        "faults" => gen_faults(seed, tier),
         "checkpoints" => gen_checkpoints(seed, tier),
         "build" => gen_build(seed, tier),
         "history" => gen_history(seed, tier),
